@@ -262,7 +262,7 @@ PROPS["C04"] = {
 PROPS["C26"] = {
     "title": "The on-disk B-tree behaves as a sorted multimap",
     "kani": [("kani/storage/btree.rs", r"^c26_")],
-    "e2": [],
+    "e2": ["btree"],
     "functions_encoded": ["index::btree::Page::{leaf_lower_bound,leaf_insert_at,delete_from_leaf,internal_child_for_key,rebuild_leaf,"
                           "rebuild_internal,leaf_cell_key_and_payload,internal_cell_key_and_right_child}", "BTree::delete",
                           "write_varint_u32/read_varint_u32/varint_u32_len"],
@@ -270,8 +270,14 @@ PROPS["C26"] = {
                "with one separator", "probe": "symbolic 1-byte target key, symbolic u64 payloads", "varint": "all u32", "unwind": "7-8"},
     "stubs": ["BTree::delete harnesses: Pager::read_page / Pager::write_page replaced by a one-page in-memory store; Pager never dereferenced"],
     "assumptions": ["split shape = BTree::insert's split (left = e[..mid], right = e[mid..], separator = right[0].key), transcribed from the code"],
-    "outside_claim": ["multi-level trees, BTree::insert end-to-end through the pager, cursor advance across leaves, keys longer than 1 byte"],
-    "level_text": "Bounded model checking (Kani/CBMC) of the real B-tree page kernels on real page buffers: lower bound, insert at the "
+    "outside_claim": ["leaf/internal splits through BTree::insert (need ~700 entries per 8 KiB page), trees deeper than two levels, keys longer than 1 byte, "
+                      "the real Pager (replaced by an in-memory page store model)"],
+    "level_text": "Path-wise symbolic execution (z3) of the real B-tree code on a symbolic 8 KiB page image with every helper inlined: "
+                  "lower bound, insert at the lower bound, delete of a cell and the descent after a split over SYMBOLIC keys and payloads; "
+                  "BTree::delete with std's binary search driven by the real comparator closure; and BTree::insert of 2 (quick) / 3 (thorough) "
+                  "symbolic pairs in arbitrary order followed by a full cursor scan (sorted, complete, newest first among equal keys). "
+                  "The Kani page harnesses (concrete key layouts) remain in the thorough tier. "
+                  "Bounded model checking (Kani/CBMC) of the real B-tree page kernels on real page buffers: lower bound, insert at the "
                   "lower bound (newest first among equal keys), delete of one cell, varint round trip, descent after a split, and "
                   "BTree::delete on a single leaf. Partial: single-page and two-level kernels. Two recorded known findings: descent goes "
                   "right of a separator whose equal keys remain in the left leaf; delete's (key,payload) binary search misses pairs "
